@@ -369,6 +369,10 @@ class ConfigRun(object):
                 return
             k = ch.draw(4, 'alen')
             new = ['new%d v%d' % (o.version, i) if typ != 'PORT' else str(9100 + o.version * 7 + i) for i in range(k)]
+            if new and typ != 'PORT' and self.prop == 'C10' and ch.chance(1, 6, 'padded'):
+                # an item with blanks at its ends: what is sent is the item, not a tidied version of it
+                new[0] = '  ' + new[0] + ' '
+                sim.probe('list-item-with-blanks-at-the-ends')
             if k == 0 and not sim.gate('emptied-list'):
                 new = ['solo%d' % o.version if typ != 'PORT' else str(9100 + o.version)]
             value = None
@@ -665,7 +669,31 @@ class ConfigRun(object):
         self.proto = TorControlProtocol()
         self.conn = sim.net.attach(self.proto, self.tor)
         self.conn.seg_mode = ch.pick(['mixed', 'whole', 'mixed', 'whole', 'bytewise'], 'segmode')
-        d = TorConfig.from_protocol(self.proto)
+        if ch.chance(1, 5, 'attachmode'):
+            # the other way to a connected view (what launch() does): a stand-alone TorConfig on which the caller has
+            # already set a few options is attached to the protocol; nothing of that may reach Tor without save(),
+            # and afterwards the view reports what Tor has, parsed by type
+            sim.probe('config-attached-after-standalone-assignments')
+            cfg = TorConfig()
+            for _ in range(ch.draw(4, 'nstandalone')):
+                o = ch.pick(self.order, 'standaloneopt')
+                if o.typ in LISTY:
+                    v = ['standalone %d' % o.version] if o.typ != 'PORT' else 9999
+                elif o.typ in CSV:
+                    v = 'sa1,sa2'
+                elif o.typ in ('Boolean', 'Boolean+Auto'):
+                    v = 0 if (o.co.values or ['0'])[0] == '1' else 1
+                elif o.typ in INTS:
+                    v = '77'
+                elif o.typ == 'Float':
+                    v = '0.125'
+                else:
+                    v = 'standalone-value'
+                sim.log('standalone-assign', o.name, repr(v))
+                setattr(cfg, o.name, v)
+            d = cfg.attach_protocol(self.proto)
+        else:
+            d = TorConfig.from_protocol(self.proto)
         d.addCallbacks(self.on_boot, self.on_boot_fail)
         sim.add_source(self.tor_actions)
         sim.add_source(self.actions)
